@@ -340,6 +340,14 @@ class Prov:
                            "std::sync::Mutex::<T>::new"):
                     npi = self._strip_deref(pi)
                 return self._operand(f, a, npi)
+        # combinators that leave one side of a Result/Option untouched
+        if pi and pi[0] != ANY and pi[0] != "*" and pi[0][0] == "d" and c.args:
+            side = pi[0][1]
+            last = (c.res or d).split("::")[-1]
+            if (side == "Ok" and last in ("map_err", "or_else")) or \
+                    (side == "Err" and last in ("map", "and_then")) or \
+                    (side == "Some" and last in ("or", "or_else", "filter")):
+                return self._operand(f, c.args[0], pi)
         out = set([("call", f.path, c.bb, c.res, pi)])
         if self.terminal is not None and self.terminal(c):
             return frozenset(out)
